@@ -1,4 +1,5 @@
 import PewProofs.FastParse
+import Mathlib.Data.List.TakeWhile
 /-! # C17 — callback values and histories of imports: helper lemmas -/
 namespace Pew.FastParse
 
@@ -136,5 +137,102 @@ theorem runS_norm (cb : Nat → Bool) (ls ls' : List (Line × Nat)) (s : St)
       unfold runS at ih ⊢
       simp only [List.foldl_cons, this]
       exact ih r' _ hr
+
+/-! ## strictly increasing positions (every line of a file has at least its line end) -/
+
+def PosInvS (s : St) : Prop := s.calls.Pairwise (· < ·) ∧ ∀ p ∈ s.calls, p ≤ s.pos
+
+theorem step_posInvS (cb : Nat → Bool) (s : St) (ln : Line × Nat) (hlen : 0 < ln.2) (h : PosInvS s) :
+    PosInvS (step cb s ln) := by
+  obtain ⟨h1, h2⟩ := h
+  have happ : (s.calls ++ [s.pos + ln.2]).Pairwise (· < ·) := by
+    rw [List.pairwise_append]
+    refine ⟨h1, by simp, ?_⟩
+    intro a ha b hb
+    simp at hb; subst hb
+    have := h2 a ha; omega
+  have hle : ∀ p ∈ s.calls ++ [s.pos + ln.2], p ≤ s.pos + ln.2 := by
+    intro p hp
+    simp only [List.mem_append, List.mem_singleton] at hp
+    rcases hp with hp | rfl
+    · have := h2 p hp; omega
+    · exact Nat.le_refl _
+  unfold step
+  split
+  · exact ⟨h1, h2⟩
+  · simp only
+    split
+    · split
+      · exact ⟨happ, hle⟩
+      · exact ⟨happ, hle⟩
+    · exact ⟨h1, fun p hp => by have := h2 p hp; simp only; omega⟩
+
+theorem runS_posInvS (cb : Nat → Bool) (ls : List (Line × Nat)) (s : St) (hlen : ∀ ln ∈ ls, 0 < ln.2)
+    (h : PosInvS s) : PosInvS (runS cb s ls) := by
+  induction ls generalizing s with
+  | nil => exact h
+  | cons ln r ih =>
+    exact ih _ (fun x hx => hlen x (List.mem_cons_of_mem _ hx)) (step_posInvS cb s ln (hlen ln List.mem_cons_self) h)
+
+/-! ## digit texts -/
+
+theorem dropWhile_all_false {α} (p : α → Bool) (l : List α) (h : ∀ c ∈ l, p c = false) : l.dropWhile p = l := by
+  cases l with
+  | nil => rfl
+  | cons a r => simp [List.dropWhile, h a List.mem_cons_self]
+
+theorem digit_not_space (c : Char) (h : c.isDigit = true) : (c == ' ' || c == '\t' || c == '\n' || c == '\r' || c == '\x0b' || c == '\x0c') = false := by
+  simp only [Char.isDigit, Bool.and_eq_true, decide_eq_true_eq] at h
+  obtain ⟨h1, h2⟩ := h
+  have : 48 ≤ c.val := h1
+  simp only [Bool.or_eq_false_iff, beq_eq_false_iff_ne, ne_eq]
+  refine ⟨⟨⟨⟨⟨?_, ?_⟩, ?_⟩, ?_⟩, ?_⟩, ?_⟩ <;> (intro e; subst e; revert this; decide)
+
+theorem digit_not_sign (c : Char) (h : c.isDigit = true) : c ≠ '-' ∧ c ≠ '+' := by
+  simp only [Char.isDigit, Bool.and_eq_true, decide_eq_true_eq] at h
+  obtain ⟨h1, h2⟩ := h
+  have : 48 ≤ c.val := h1
+  constructor <;> (intro e; subst e; revert this; decide)
+
+theorem splitSign_digits (l : List Char) (h : ∀ c ∈ l, c.isDigit = true) : splitSign l = (false, l) := by
+  cases l with
+  | nil => rfl
+  | cons a r =>
+    obtain ⟨h1, h2⟩ := digit_not_sign a (h a List.mem_cons_self)
+    unfold splitSign
+    split
+    · rename_i heq; simp at heq; exact absurd heq.1 h1
+    · rename_i heq; simp at heq; exact absurd heq.1 h2
+    · rfl
+
+/-- `int()` and `float()` read a text of digits as the same number (before the rounding to binary64) -/
+theorem decimalValue_of_digits' (s : String) (n : Nat) (h : pyNat s = some n) : decimalValue s = some (n : Rat) := by
+  unfold pyNat at h
+  split at h
+  · exact absurd h (by simp)
+  · rename_i hc
+    simp only [Bool.or_eq_true, Bool.not_eq_eq_eq_not, Bool.not_true, not_or, Bool.not_eq_true] at hc
+    obtain ⟨hne, hall⟩ := hc
+    have hall' : ∀ c ∈ s.toList, c.isDigit = true := by
+      simpa [List.all_eq_true] using hall
+    have hn : digitsNat s.toList = n := by
+      simp only [Option.some.injEq] at h; exact h
+    have hnil : s.toList ≠ [] := by
+      intro e
+      have : s.isEmpty = true := by simp [String.isEmpty_iff, ← String.toList_eq_nil_iff, e]
+      rw [this] at hne; exact absurd hne (by simp)
+    unfold decimalValue
+    have hws : ∀ c ∈ s.toList, (c == ' ' || c == '\t' || c == '\n' || c == '\r' || c == '\x0b' || c == '\x0c') = false :=
+      fun c hc => digit_not_space c (hall' c hc)
+    simp only []
+    rw [dropWhile_all_false _ s.toList hws,
+        dropWhile_all_false _ s.toList.reverse (fun c hc => hws c (List.mem_reverse.mp hc)), List.reverse_reverse,
+        splitSign_digits _ hall']
+    have htw : s.toList.takeWhile Char.isDigit = s.toList := (List.takeWhile_eq_self_iff).2 hall'
+    have hdw : s.toList.dropWhile Char.isDigit = [] := (List.dropWhile_eq_nil_iff).2 hall'
+    simp only [htw, hdw, List.append_nil, List.length_nil, hn]
+    simp [pow10]
+    intro e; subst e; exact hnil rfl
+
 
 end Pew.FastParse
